@@ -113,12 +113,12 @@ Section Facts.
 
   (* ---------------------------------------------------------------- *)
   (** ** ApplyParameters and the per-cell decoding of parameters *)
-  Fixpoint pviews_from (maxd : denv) (nSets row : nat) (ps : list pspec) : list view :=
+  Fixpoint pviews_from (maxd : denv) (nSets row : nat) (ps : list pspec) : list wview :=
     match ps with
     | [] => []
     | p :: r =>
-      {| vstart := row * nSets; vstr := strides (param_shape maxd nSets p);
-         vdims := param_shape maxd nSets p |}
+      {| wstart := row * nSets; wstr := strides (param_shape maxd nSets p);
+         wdims := param_shape maxd nSets p |}
       :: pviews_from maxd nSets (row + block_size maxd p) r
     end.
 
@@ -167,28 +167,29 @@ Section Facts.
       destruct p as [|d|ds]; simpl in Hb; inversion Hb as [|x y Hb1 Hb2]; subst;
         cbn [read_params pviews_from param_shape block_size].
       - (* Scalar *)
-        unfold len1. cbn [vdims nth strides lprod]. rewrite gomod_ok by exact HnSets.
-        replace (get1_off {| vstart := row * nSets; vstr := [1]; vdims := [nSets] |} (i mod nSets))
+        unfold len1. cbn [wdims nth strides lprod]. rewrite gomod_ok by exact HnSets.
+        replace (get1_off {| wstart := row * nSets; wstr := [1]; wdims := [nSets] |} (i mod nSets))
           with (row * nSets + i mod nSets) by (unfold get1_off; simpl; lia).
         rewrite run_bind, run_rd by (rewrite bsize_BP; inversion Hb1; auto).
         rewrite run_bind. replace (row + 1) with (row + 1) in * by reflexivity.
         rewrite IH by assumption. reflexivity.
       - (* DimOf *)
-        unfold len1. cbn [vdims nth strides lprod]. rewrite gomod_ok by exact HnSets.
-        replace (get1_off {| vstart := row * nSets; vstr := [1]; vdims := [nSets] |} (i mod nSets))
+        unfold len1. cbn [wdims nth strides lprod]. rewrite gomod_ok by exact HnSets.
+        replace (get1_off {| wstart := row * nSets; wstr := [1]; wdims := [nSets] |} (i mod nSets))
           with (row * nSets + i mod nSets) by (unfold get1_off; simpl; lia).
         rewrite run_bind, run_rd by (rewrite bsize_BP; inversion Hb1; auto).
         rewrite run_bind. rewrite IH by assumption. reflexivity.
       - (* Table *)
-        cbn [vdims]. rewrite last_snoc. rewrite gomod_ok by exact HnSets.
+        cbn [wdims]. rewrite last_snoc. rewrite gomod_ok by exact HnSets.
         set (c := i mod nSets) in *.
-        assert (Ho : voffsets (vslice {| vstart := row * nSets;
-                                         vstr := strides (map (dlookup maxd) ds ++ [nSets]);
-                                         vdims := map (dlookup maxd) ds ++ [nSets] |}
+        assert (Ho : voffsets (vslice {| wstart := row * nSets;
+                                         wstr := strides (map (dlookup maxd) ds ++ [nSets]);
+                                         wdims := map (dlookup maxd) ds ++ [nSets] |}
                                       (map (fun _ => 0) ds ++ [c]) (map (dlookup env) ds) None)
-                     = map (fun ix => (row + dot ix (strides (map (dlookup maxd) ds))) * nSets + c)
-                           (indices (map (dlookup env) ds))).
-        { unfold voffsets, vslice. cbn [vstart vstr vdims]. apply map_ext_in. intros ix Hix.
+                     = map (fun r => r * nSets + c)
+                           (map (fun ix => row + dot ix (strides (map (dlookup maxd) ds)))
+                                (indices (map (dlookup env) ds)))).
+        { rewrite map_map. unfold voffsets, vslice. cbn [wstart wstr wdims]. apply map_ext_in. intros ix Hix.
           apply indices_length in Hix. rewrite map_length in Hix.
           rewrite strides_app_last.
           rewrite dot_zeros_last by (rewrite strides_length, map_length; reflexivity).
@@ -200,8 +201,17 @@ Section Facts.
 
   (* ---------------------------------------------------------------- *)
   (** ** One goroutine body, run alone *)
-  Lemma get1_vec s n : forall k, map (get1_off {| vstart := s; vstr := [1]; vdims := [n] |}) (seq 0 k) = seq s k.
+  Lemma get1_vec s n : forall k, map (get1_off {| wstart := s; wstr := [1]; wdims := [n] |}) (seq 0 k) = seq s k.
   Proof. intros k. apply seq_shift_map_gen. intros t. unfold get1_off. simpl. lia. Qed.
+
+  Lemma NoDup_app_intro {A} (l1 l2 : list A) :
+    NoDup l1 -> NoDup l2 -> (forall a, In a l1 -> In a l2 -> False) -> NoDup (l1 ++ l2).
+  Proof.
+    induction l1 as [|a l1 IH]; simpl; intros N1 N2 D; auto.
+    inversion N1 as [|x y Hx Hy]; subst. constructor.
+    - intro H. apply in_app_or in H. destruct H; [auto | eapply D; eauto].
+    - apply IH; auto. intros b Hb1 Hb2. eapply D; eauto.
+  Qed.
 
   Lemma Forall2_dec_len {A B} (l1 : list (list A)) (l2 : list (list B)) :
     {Forall2 (fun o v => length o = length v) l1 l2} + {~ Forall2 (fun o v => length o = length v) l1 l2}.
@@ -286,8 +296,8 @@ Section Facts.
       unfold bsize; simpl. assert (i * S + S <= N * S) by nia. lia.
     Qed.
 
-    Definition ovs_closed (i : nat) : list view :=
-      map (fun k => {| vstart := (i * oK + k) * oT; vstr := [1]; vdims := [T] |}) (seq 0 (n_out sp)).
+    Definition ovs_closed (i : nat) : list wview :=
+      map (fun k => {| wstart := (i * oK + k) * oT; wstr := [1]; wdims := [T] |}) (seq 0 (n_out sp)).
     Lemma ovs_closed_offsets i : map voffsets (ovs_closed i) = out_rows i.
     Proof.
       unfold ovs_closed, out_rows. rewrite map_map. apply map_ext. intros. apply voffsets_vec.
@@ -329,7 +339,7 @@ Section Facts.
       (* inputs *)
       rewrite input_views_eq. cbn [with_views].
       rewrite map_map.
-      replace (map (fun x => voffsets {| vstart := (i mod nIn * nI + x) * T; vstr := [1]; vdims := [T] |})
+      replace (map (fun x => voffsets {| wstart := (i mod nIn * nI + x) * T; wstr := [1]; wdims := [T] |})
                    (seq 0 (n_in sp))) with (in_rows i)
         by (unfold in_rows; apply map_ext; intros; rewrite voffsets_vec; reflexivity).
       rewrite run_bind, (run_rd_rows sh BI) by (eapply in_rows_bounds; eauto).
@@ -388,6 +398,102 @@ Section Facts.
       unfold outs_shape_ok.
       destruct (Forall2_dec_len (out_rows i) outs) as [F|F]; auto.
       rewrite run_wr_rows_mismatch in E by assumption. discriminate.
+    Qed.
+
+    (* -------------------------------------------------------------- *)
+    (** ** Where a cell reads and writes: different cells = different rows *)
+    Lemma mixed_radix_inj b x y t t' : t < b -> t' < b -> x * b + t = y * b + t' -> x = y /\ t = t'.
+    Proof. intros. destruct (lt_eq_lt_dec x y) as [[H2|H2]|H2]; nia. Qed.
+
+    Lemma in_out_rows i o : In o (concat (out_rows i)) <->
+      exists k t, k < n_out sp /\ t < T /\ o = (i * oK + k) * oT + t.
+    Proof.
+      unfold out_rows. rewrite <- flat_map_concat_map, in_flat_map. split.
+      - intros (k & Hk & Ho). apply in_seq in Hk. apply in_seq in Ho.
+        exists k, (o - (i * oK + k) * oT). repeat split; lia.
+      - intros (k & t & Hk & Ht & ->). exists k. split; apply in_seq; lia.
+    Qed.
+    Lemma in_in_rows i o : In o (concat (in_rows i)) <->
+      exists k t, k < n_in sp /\ t < T /\ o = ((i mod nIn) * nI + k) * T + t.
+    Proof.
+      unfold in_rows. rewrite <- flat_map_concat_map, in_flat_map. split.
+      - intros (k & Hk & Ho). apply in_seq in Hk. apply in_seq in Ho.
+        exists k, (o - ((i mod nIn) * nI + k) * T). repeat split; lia.
+      - intros (k & t & Hk & Ht & ->). exists k. split; apply in_seq; lia.
+    Qed.
+
+    Lemma out_rows_disjoint i j o : n_out sp <= oK -> T <= oT -> i <> j ->
+      In o (concat (out_rows i)) -> ~ In o (concat (out_rows j)).
+    Proof.
+      intros HK HT Hne H1 H2. apply in_out_rows in H1. apply in_out_rows in H2.
+      destruct H1 as (k & t & Hk & Ht & ->). destruct H2 as (k' & t' & Hk' & Ht' & E).
+      apply mixed_radix_inj in E; try lia. destruct E as [E _].
+      apply mixed_radix_inj in E; try lia.
+    Qed.
+    Lemma st_rows_disjoint i j o c c' : c <= S -> c' <= S -> i <> j ->
+      In o (seq (i * S) c) -> ~ In o (seq (j * S) c').
+    Proof. intros Hc Hc' Hne H1 H2. apply in_seq in H1. apply in_seq in H2. nia. Qed.
+
+    Lemma rows_writes_addrs b : forall views rows,
+      Forall2 (fun o v => length o = length v) views rows ->
+      map fst (rows_writes b views rows) = tag b (concat views).
+    Proof.
+      induction 1; simpl; auto. rewrite map_app, IHForall2. unfold tag. rewrite map_app. f_equal.
+      clear -H. revert y H. induction x; intros [|v y] H; simpl in *; try discriminate; auto.
+      f_equal. apply IHx. lia.
+    Qed.
+    Lemma combine_tag_addrs b : forall offs (vals : list V), length offs = length vals ->
+      map fst (combine (tag b offs) vals) = tag b offs.
+    Proof.
+      induction offs; intros [|v vals] H; simpl in *; try discriminate; auto. f_equal. apply IHoffs. lia.
+    Qed.
+
+    (** The addresses a cell writes ([outs] well-shaped). *)
+    Lemma cell_updates_addrs i outs st' : outs_shape_ok i outs ->
+      map fst (cell_updates i outs st') = tag BO (concat (out_rows i)) ++ tag BS (seq (i * S) (length st')).
+    Proof.
+      intros Ho. unfold cell_updates. rewrite map_app, rows_writes_addrs by assumption.
+      rewrite combine_tag_addrs by (rewrite seq_length; reflexivity). reflexivity.
+    Qed.
+
+    Lemma in_tag b b' o l : In (b', o) (tag b l) <-> b' = b /\ In o l.
+    Proof.
+      unfold tag. rewrite in_map_iff. split.
+      - intros (x & E & H). inversion E; subst. auto.
+      - intros [-> H]. exists o. auto.
+    Qed.
+
+    Lemma NoDup_tag b l : NoDup l -> NoDup (tag b l).
+    Proof.
+      induction 1; simpl; constructor; auto.
+      intro Hin. apply in_map_iff in Hin. destruct Hin as (y & E & Hy). inversion E; subst. auto.
+    Qed.
+
+    Lemma NoDup_concat_out_rows i : n_out sp <= oK -> T <= oT -> NoDup (concat (out_rows i)).
+    Proof.
+      intros HK HT. unfold out_rows.
+      assert (G : forall ks, NoDup ks -> Forall (fun k => k < oK) ks ->
+                  NoDup (concat (map (fun k => seq ((i * oK + k) * oT) T) ks))).
+      { induction ks as [|k ks IH]; intros ND F; simpl; [constructor|].
+        inversion ND as [|x y Hnin ND']; subst. inversion F as [|x y Hk F']; subst.
+        apply NoDup_app_intro; [apply seq_NoDup | apply IH; auto |].
+        intros o Ho1 Ho2. apply in_seq in Ho1. rewrite <- flat_map_concat_map in Ho2.
+        apply in_flat_map in Ho2. destruct Ho2 as (k' & Hk' & Ho). apply in_seq in Ho.
+        assert (k' < oK) by (rewrite Forall_forall in F'; auto).
+        assert (k <> k') by (intro; subst; auto).
+        assert (E : (i * oK + k) * oT + (o - (i * oK + k) * oT) = (i * oK + k') * oT + (o - (i * oK + k') * oT)) by lia.
+        apply mixed_radix_inj in E; lia. }
+      apply G; [apply seq_NoDup|]. apply Forall_forall. intros k Hk. apply in_seq in Hk. lia.
+    Qed.
+
+    Lemma cell_updates_NoDup i outs st' : n_out sp <= oK -> T <= oT -> outs_shape_ok i outs ->
+      NoDup (map fst (cell_updates i outs st')).
+    Proof.
+      intros HK HT Ho. rewrite cell_updates_addrs by assumption.
+      apply NoDup_app_intro.
+      - apply NoDup_tag, NoDup_concat_out_rows; auto.
+      - apply NoDup_tag, seq_NoDup.
+      - intros [b o] H1 H2. apply in_tag in H1. apply in_tag in H2. destruct H1, H2. congruence.
     Qed.
   End Cell.
 End Facts.
